@@ -86,7 +86,36 @@ class SimLoop(asyncio.SelectorEventLoop):
     exec_hook = None    # callable(func) -> None | ("delay", seconds) | ("raise", exception): per-job decision (fault injection
                         # UNDER a real executor-based back end: the job is slow, or what it calls in the thread fails)
 
+    exec_queue_delay = 0.0  # virtual seconds a job waits in the pool's queue before a thread takes it (a busy pool): a job whose
+                            # waiter is cancelled meanwhile is taken back and never runs - what concurrent.futures does
+
     def run_in_executor(self, executor, func, *args):
+        if self.exec_queue_delay:
+            queued = self.create_future()
+            qd = self.exec_queue_delay
+
+            def start():
+                if queued.done():
+                    return      # cancelled while still in the queue: never run
+                self.exec_queue_delay, keep = 0.0, self.exec_queue_delay
+                try:
+                    inner = self.run_in_executor(executor, func, *args)
+                finally:
+                    self.exec_queue_delay = keep
+
+                def hand_over(f):
+                    if queued.done():
+                        return
+                    if f.cancelled():
+                        queued.cancel()
+                    elif f.exception() is not None:
+                        queued.set_exception(f.exception())
+                    else:
+                        queued.set_result(f.result())
+                inner.add_done_callback(hand_over)
+                queued.add_done_callback(lambda f: f.cancelled() and inner.cancel())
+            self.call_later(qd, start)
+            return queued
         delay = self.exec_delay
         if self.exec_hook is not None:
             verdict = self.exec_hook(func)
